@@ -156,5 +156,5 @@ def cases(draw, prof):
 
 PROFILE = specgen.profile(domain_rate=0.0, total_preds=True, depth=2)
 PARTS = [
-    Part("chains", check, strategy=lambda ctx: cases(PROFILE), budget={"quick": 70, "thorough": 900}),
+    Part("chains", check, strategy=lambda ctx: cases(PROFILE), budget={"quick": 250, "thorough": 900}),
 ]
